@@ -49,8 +49,16 @@ def run(ctx, cases_override=None):
         cases = [v[0] for v in prints(gen, "CASE")]
         cases.sort(key=lambda c: json.dumps(c, sort_keys=True))
         n_never = len(cases)
-        # ---- GEN (b): simulation over the whole space (seeded): one scenario per behaviour
-        want = 150000 if thorough else 3000
+        # ---- GEN (b), thorough: every scenario whose selector returns series now - the stratum in which P1 speaks
+        n_now = 0
+        if thorough:
+            gnow = ctx.tlc("SeriesCheck", "SeriesCheck_GenNow.cfg", tag="gen-now", timeout=3000, workers=w, heap="6g", allow_violation=True)
+            nowc = [v[0] for v in prints(gnow, "CASE")]
+            nowc.sort(key=lambda c: json.dumps(c, sort_keys=True))
+            n_now = len(nowc)
+            cases += nowc
+        # ---- GEN (c): simulation over the whole space (seeded): one scenario per behaviour
+        want = 120000 if thorough else 3000
         sim = ctx.tlc("SeriesCheck", "SeriesCheck_Gen.cfg", tag="gen-sim", timeout=3000, workers=w, heap="4g",
                       simulate=max(1, want // w), depth=6)
         seen = {json.dumps(c, sort_keys=True) for c in cases}
@@ -111,6 +119,7 @@ def run(ctx, cases_override=None):
         "exhaustive": False,
         "scenario_space": total,
         "scenarios_never_present_all": n_never if cases_override is None else 0,
+        "scenarios_present_now_all": n_now if cases_override is None else 0,
         "p1_antecedent_true": p1,
         "p2_antecedent_true": p2,
         "problem_classes_observed": classes,
